@@ -21,6 +21,92 @@ class Program(object):
         self.types = data['types']
         self._under = {}
 
+    def private_globals(self):
+        """unexported package-level variables whose address never leaves load/store/index positions in any
+        function of the (loaded) package: no parameter, result or heap cell can ever point into their storage"""
+        if getattr(self, '_priv', None) is not None:
+            return self._priv
+        esc = set()
+        pkgs = set()
+        fl = list(self.funcs.values()) if isinstance(self.funcs, dict) else list(self.funcs)
+
+        def operands(ins):
+            for k, v in ins.items():
+                if isinstance(v, dict):
+                    if 'k' in v:
+                        yield k, v
+                    else:
+                        for k2, v2 in v.items():
+                            if isinstance(v2, dict) and 'k' in v2:
+                                yield k + '.' + k2, v2
+                            elif isinstance(v2, list):
+                                for e in v2:
+                                    if isinstance(e, dict) and 'k' in e:
+                                        yield k + '.' + k2, e
+                elif isinstance(v, list):
+                    for e in v:
+                        if isinstance(e, dict):
+                            if 'k' in e:
+                                yield k, e
+                            else:
+                                for k2, v2 in e.items():
+                                    if isinstance(v2, dict) and 'k' in v2:
+                                        yield k + '.' + k2, v2
+        for f in fl:
+            pkgs.add(f.get('pkg'))
+            derived = {}
+
+            def g_of(v):
+                if v.get('k') == 'global':
+                    return v['n']
+                if v.get('k') == 'reg':
+                    return derived.get(v['n'])
+                return None
+            for _ in range(3):
+                for b in f.get('blocks') or []:
+                    for ins in b['instrs']:
+                        if ins['op'] in ('IndexAddr', 'FieldAddr'):
+                            g = g_of(ins['x'])
+                            if g:
+                                derived[ins['name']] = g
+            for b in f.get('blocks') or []:
+                for ins in b['instrs']:
+                    op = ins['op']
+                    for key, v in operands(ins):
+                        g = g_of(v)
+                        if not g:
+                            continue
+                        ok = (op in ('IndexAddr', 'FieldAddr') and key == 'x') or (op == 'UnOp' and ins.get('unop') == '*' and key == 'x') or (op == 'Store' and key == 'addr')
+                        if not ok:
+                            esc.add(g)
+        priv = set()
+        for g in self.globals:
+            pk, nm = g.rsplit('.', 1)
+            if pk in pkgs and g not in esc and (nm[:1].islower() or nm[:1] == '_'):
+                priv.add(g)
+        self._priv = priv
+        return priv
+
+    def sliced_arrays(self):
+        """array types that some function slices through a pointer (slice literals, buf[:]): these stay in the
+        slice heaps; all other small scalar arrays are stored per index"""
+        if getattr(self, '_sliced', None) is None:
+            s = set()
+            fl = self.funcs.values() if isinstance(self.funcs, dict) else self.funcs
+            for f in fl:
+                for b in f.get('blocks') or []:
+                    for ins in b['instrs']:
+                        if ins.get('op') == 'Slice':
+                            t = (ins.get('x') or {}).get('type', '')
+                            if t.startswith('*'):
+                                s.add(t[1:])
+                                tt = self.types.get(t[1:])
+                                while tt is not None and tt['kind'] == 'named':
+                                    s.add(tt['underlying'])
+                                    tt = self.types.get(tt['underlying'])
+            self._sliced = s
+        return self._sliced
+
     # ---- types
     def under(self, tid):
         """underlying type entry (follows named)"""
